@@ -56,6 +56,11 @@ def run_one(choices, params):
         a, b = k.socketpair()
         ledger, _, _ = pair.tap_pair(sim, a, b, log=False)
         conn = rpyc.VoidService()._connect(Channel(SocketStream(a), False), {"connid": "A", "sync_request_timeout": timeout})
+        # knob: where the connection's sequence numbers start (a long-lived connection is anywhere in its number space; the
+        # numbers near 2**16, 2**31, 2**32 and 2**63 are where a counter of limited width would wrap)
+        import itertools
+        start = c.pick((0, 0, 2 ** 16 - 3, 2 ** 31 - 2, 2 ** 32 - 3, 2 ** 63 - 2, 2 ** 64 - 1))
+        conn._seqcounter = itertools.count(start)
         spy = thr.Spy(sim, conn)
         rp = thr.ReorderPeer(sim, b, choices.stream("peer"), delays=(0.0, 0.0, 0.0625, 0.125, 0.25))
         sim.spawn(rp.reader, _name="peer.reader")
